@@ -9,12 +9,16 @@ pub mod rolling_logger;
 pub type LoggerLevel = log::Level;
 
 pub fn get_log_header(level: LoggerLevel) -> String {
+    // the time stamp prints only the significant sub-second digits, so the header can be shorter than 34 bytes;
+    // pad / cut it to the fixed width instead of slicing it
     format!(
-        "{} [{}]    ",
-        misc_helpers::get_date_time_string_with_milliseconds(),
-        level
-    )[..34]
-        .to_string()
+        "{:<34.34}",
+        format!(
+            "{} [{}]    ",
+            misc_helpers::get_date_time_string_with_milliseconds(),
+            level
+        )
+    )
 }
 
 #[cfg(test)]
